@@ -515,7 +515,18 @@ func equalUnder(a, b *sym.Term, env map[string]int64) bool {
 	}
 	if a.Op == "struct" && b.Op != "struct" {
 		for i, n := range a.Names {
-			if !equalUnder(a.Args[i], sym.Mk("field", n, b), env) {
+			other := sym.Mk("field", n, b)
+			switch n {
+			case "MinCapacity":
+				continue // unobservable (see below)
+			case "CleanupInterval":
+				va, oka := evalInt(a.Args[i], env)
+				vb, okb := evalInt(other, env)
+				if oka && okb && va <= 0 && vb <= 0 {
+					continue
+				}
+			}
+			if !equalUnder(a.Args[i], other, env) {
 				return false
 			}
 		}
@@ -529,6 +540,20 @@ func equalUnder(a, b *sym.Term, env map[string]int64) bool {
 			return false
 		}
 		for i := range a.Args {
+			// configuration values that nothing can observe are not compared: the capacity hint (contents never depend on
+			// capacity), and among cleanup intervals only 'positive, and which' matters (any value <= 0 means no janitor)
+			if i < len(a.Names) {
+				switch a.Names[i] {
+				case "MinCapacity":
+					continue
+				case "CleanupInterval":
+					va, oka := evalInt(a.Args[i], env)
+					vb, okb := evalInt(b.Args[i], env)
+					if oka && okb && va <= 0 && vb <= 0 {
+						continue
+					}
+				}
+			}
 			if !equalUnder(a.Args[i], b.Args[i], env) {
 				return false
 			}
@@ -607,4 +632,47 @@ func compareOnRegions(pa, pb []sym.Path) (string, int) {
 		return "too many regions", total
 	}
 	return rec(0, map[string]int64{}), total
+}
+
+// regionEnvs enumerates one assignment per region of the comparison constants of a path table (k-1, k, k+1 for
+// every constant k a variable is compared with).
+func regionEnvs(paths []sym.Path, visit func(env map[string]int64) bool) int {
+	vars := map[string]map[int64]bool{}
+	leafVars(paths, vars)
+	var names []string
+	for n := range vars {
+		names = append(names, n)
+	}
+	sort.Strings(names)
+	samples := make([][]int64, len(names))
+	for i, n := range names {
+		set := map[int64]bool{}
+		for k := range vars[n] {
+			set[k-1], set[k], set[k+1] = true, true, true
+		}
+		for v := range set {
+			if strings.HasPrefix(n, "len(") && v < 0 {
+				continue
+			}
+			samples[i] = append(samples[i], v)
+		}
+		sort.Slice(samples[i], func(a, b int) bool { return samples[i][a] < samples[i][b] })
+	}
+	total := 0
+	var rec func(i int, env map[string]int64) bool
+	rec = func(i int, env map[string]int64) bool {
+		if i == len(names) {
+			total++
+			return visit(env)
+		}
+		for _, v := range samples[i] {
+			env[names[i]] = v
+			if !rec(i+1, env) {
+				return false
+			}
+		}
+		return true
+	}
+	rec(0, map[string]int64{})
+	return total
 }
